@@ -60,10 +60,14 @@ impl<'a> Message<'a> {
             } else {
                 0
             };
-            let (rest, last_param) = if let Some((rest, lp)) = trimmed[start_pos..].split_once(':')
-            {
+            // last parameter starts after first " :" - colon inside other parameters
+            // (for example in IPv6 address) does not start last parameter.
+            let (rest, last_param) = if let Some(p) = trimmed[start_pos..].find(" :") {
                 // get rest. add first character length to rest length.
-                (&trimmed[0..rest.len() + start_pos], Some(lp))
+                (
+                    &trimmed[0..p + start_pos],
+                    Some(&trimmed[p + start_pos + 2..]),
+                )
             } else {
                 (trimmed, None)
             };
